@@ -8,6 +8,7 @@ import (
 	"encoding/json"
 	"fmt"
 	"os"
+	"runtime"
 	"strconv"
 	"strings"
 	"testing"
@@ -153,6 +154,17 @@ func Merge(name string) {}
 // Symbolic reports whether the harness runs in the symbolic executor.
 func Symbolic() bool { return false }
 
+// AllocLimit states the memory budget of the code under test: the executor reports any
+// input-controlled allocation that may exceed it; natively the bytes allocated during the run
+// are measured.
+func AllocLimit(bytes int) {
+	var ms runtime.MemStats
+	runtime.ReadMemStats(&ms)
+	allocBase, allocLimit = ms.TotalAlloc, uint64(bytes)
+}
+
+var allocBase, allocLimit uint64
+
 // AllowPanic tells the executor that panics are not findings in this harness.
 func AllowPanic() {}
 
@@ -189,8 +201,16 @@ func runOne(c Case, h func()) (o Outcome) {
 			}
 		}
 	}()
+	allocLimit = 0
 	h()
 	o.Outcome = "ok"
+	if allocLimit > 0 {
+		var ms runtime.MemStats
+		runtime.ReadMemStats(&ms)
+		if ms.TotalAlloc-allocBase > allocLimit+(4<<20) {
+			o.Outcome = fmt.Sprintf("alloc:exceeded (%d bytes allocated, budget %d)", ms.TotalAlloc-allocBase, allocLimit)
+		}
+	}
 	return
 }
 
